@@ -65,6 +65,80 @@ def unhx(s):
     return b"" if s == "-" else bytes.fromhex(s)
 
 
+def history(script):
+    """a history of calls on reused buffer objects; one answer per step, `.` for steps that print nothing"""
+    import pycoin.contrib.ripemd160 as R
+    import pycoin.bloomfilter as B
+    bufs = {}      # name -> the object handed to pycoin
+    backing = {}   # name -> the bytearray behind a memoryview
+    kinds = {}
+    filt = [None]
+
+    def make(i, kind, data):
+        kinds[i] = kind
+        if kind == "y":
+            bufs[i] = bytes(data)
+        elif kind == "a":
+            bufs[i] = bytearray(data)
+        else:
+            backing[i] = bytearray(data)
+            bufs[i] = memoryview(backing[i])
+
+    def one(st):
+        p = st.split(":")
+        k = p[0]
+        if k in ("ny", "na", "nm"):
+            make(int(p[1]), k[1], unhx(p[2]))
+            return "."
+        if k == "s":
+            i, d = int(p[1]), unhx(p[2])
+            kind = kinds[i]                     # KeyError when the name was never bound
+            if kind == "a":
+                bufs[i][:] = d                  # the SAME object, new contents
+            elif kind == "m" and len(d) == len(backing[i]):
+                backing[i][:] = d               # same memoryview, same backing object, new contents
+            else:
+                make(i, kind, d)                # bytes are immutable (and a memoryview cannot be resized): rebind
+            return "."
+        if k == "r":
+            return H.ripemd160(bufs[int(p[1])]).digest().hex() or "-"
+        if k == "h":
+            return H.hash160(bufs[int(p[1])]).hex() or "-"
+        if k == "d":
+            return bytes(H.double_sha256(bufs[int(p[1])])).hex() or "-"
+        if k == "c":
+            return R.ripemd160(bufs[int(p[1])]).hex() or "-"
+        if k == "m":
+            return str(B.murmur3(bufs[int(p[1])], seed=int(p[2])))
+        if k == "bn":
+            filt[0] = B.BloomFilter(int(p[1]), int(p[2]), int(p[3]))
+            return "."
+        if k == "ba":
+            f = filt[0]
+            add = f.add_item                    # AttributeError when there is no filter
+            add(bufs[int(p[1])])
+            return "."
+        if k == "bf":
+            return bytes(filt[0].filter_bytes).hex() or "-"
+        if k == "bc":
+            f = filt[0]
+            n = f.hash_function_count
+            b = bufs[int(p[1])]
+            ok = True
+            for j in range(n):
+                ok = f.check_bit(B.murmur3(b, seed=j * 0xFBA4C795 + f.tweak) % f.bit_count) and ok
+            return "1" if ok else "0"
+        raise ValueError("bad step")
+
+    out = []
+    for st in ([] if script == "~" else script.split(",")):
+        try:
+            out.append(one(st))
+        except Exception as e:  # noqa: BLE001
+            out.append("err:" + type(e).__name__)
+    return "ok " + ";".join(out)
+
+
 def answer(line):
     a = line.split(" ")
     try:
@@ -72,6 +146,8 @@ def answer(line):
             return "ok " + which()
         if a[0] == "facts":   # what the unpatched interpreter offers
             return "ok listed=%d works=%d" % ("ripemd160" in hashlib.algorithms_available, NATIVE_OK)
+        if a[0] == "history":
+            return history(a[1])
         if a[0] == "ripemd160":
             d = H.ripemd160(unhx(a[1])).digest()
             return "ok " + (d.hex() or "-")
